@@ -4,29 +4,25 @@ RULE = "see stats"
 TIMEOUT = {"quick": 900, "search": 1800, "thorough": 3 * 3600}
 PARTIAL = [
     "single-precision arithmetic of spreadCells/spreadCoordX/Y: modelled bit for bit (Model/SpreadF.lean: one binary32 "
-    "round-to-nearest-even per C++ operator, x86-64 SSE, no FMA contraction — neither /repo's build files nor the harness pass "
-    "-march/-mfma) and compared EXACTLY with the real spreadCoordX/Y on every run (stream spreadf: limits up to 2^22, demands up "
-    "to INT_MAX, up to 301 cells per bin, huge+tiny demand mixes). In binary32 a coordinate is NOT always inside the closed "
-    "bin: spreadF_can_leave_bin (one ulp outside, both sides, proved by kernel evaluation). Proved for all inputs: "
-    "spreadF_enclosure_partial — every positive-demand cell is within epsF(d,lo,hi) = d(hi-lo) + (1+d)(|lo|+|hi|) 4 2^-24 + 8 2^-150 "
-    "of its bin where 1+d bounds the FINAL running share dem of the loop; exposed_centre_within_half — an excursion below 1/2 "
-    "vanishes in the export rounding; binF_exposed_centre_inside — both combined per bin; spreadF_radius_below_half — epsF < 1/2 "
-    "when d <= 2^-14, bins <= 2048 wide, limits <= 2^18. NOT proved: the bound on the final share in terms of the number of cells "
-    "(spreadF_enclosure_full_statement, conjectured slack (4n+4)2^-24/(1-(4n+4)2^-24)); the lifting of the per-bin theorem through "
-    "the scatter loop of spreadCoordX/Y to every cell (done over Rat only: ub_every_cell_inside); the clamp of unassigned cells is "
-    "modelled and compared but has no binary32 theorem (it is comparison-only, hence exact)",
-    "PROPOSED KNOWN FINDING KF-C06-3 (not yet in known_findings.json, therefore counted, not raised): the excursion is not bounded by "
-    "1/2 on the whole domain. spreadF_can_exceed_half (kernel-evaluated) and the real code agree: 10 cells of demands 16776988, "
-    "1 x6, 2 x3 (targets increasing) in the bin [0, 4000000] put the last cell at 4000002.5 (exported centre 4000003 > hi + 1/2); 301 "
-    "cells (16776400, 1 x200, 2 x100) in [0, 1048576] reach 1048600.875. Mechanism: total demand just below a power of two, one cell "
-    "holding almost all of it, then cells whose half share is just above half an ulp of dem — every `dem +=` rounds up. The stream "
-    "counts such results (spreadf_round_outside_area_by_more_than_half = known_finding_candidate:KF-C06-3; 321 of 3000 spreadCoord "
-    "calls at seed 1, all in the drift/witness families). Whether Circuit::placeGlobal can build such a bin (a macro of area ~2^24 "
-    "next to cells of area 1-2 in one bin at the area's edge) was not established; the end-to-end oracle would report it as a "
-    "violation. Candidate repair: clamp coords[c] (or dem) to [minCoord, maxCoord] in spreadCells",
+    "round-to-nearest-even per C++ operator, the clamp of fixes/c06-spread-clamp.diff included; x86-64 SSE, no FMA contraction — "
+    "neither /repo's build files nor the harness pass -march/-mfma; on a target with FMA the coordinate expression could be "
+    "contracted and the model would not apply, but the containment theorems would, since they rest on the clamp alone) and compared "
+    "EXACTLY with the real spreadCoordX/Y on every run (stream spreadf: limits up to 2^22, demands up to INT_MAX, up to 301 cells "
+    "per bin, huge+tiny demand mixes, the witnesses of corpus/C06/kf3-spread-drift.txt first). PROVED for all inputs: "
+    "spreadF_inside_closed_bin (every positive-demand cell in the closed bin [lo,hi], lo <= hi, no other hypothesis), "
+    "ubF_every_cell_inside (every cell of spreadCoordX/Y in [A,B]) and ubF_exposed_centre (exposed centre in [A-1/2,B+1/2], exactly "
+    "the oracle's tolerance); extra hypothesis w.r.t. the Rat versions: bin limits convert exactly to float (|l| <= 2^24; C06 "
+    "coordinates are below 2^22). Finite floats only: the rounding function has no infinities/NaN (targets are finite as long as "
+    "the CG iterates are, which is monitored, not proved). STRICT containment (the anchor's 'strictly inside its bin') holds over Rat "
+    "(spread_inside) but not in binary32: a coordinate can sit on the bin edge (counted: spreadf_coord_on_edge_of_bin)",
+    "defect found and repaired here (fixes/c06-spread-clamp.diff): before the clamp the running share dem could accumulate past 1 in "
+    "binary32 and cells landed outside their bin — 4000002.5 in [0,4000000] with 10 cells, 24.9 units outside with 301 cells, exported "
+    "centre beyond the rows' bounding box when the bin touches the area's edge; pre-fix function kept as Model/LegacySpreadF.lean with "
+    "kernel-evaluated witnesses legacy_spreadF_can_leave_bin / legacy_spreadF_can_exceed_half. Whether Circuit::placeGlobal could "
+    "build such a bin was not established (the end-to-end generator keeps coordinates within a few hundred units)",
     "the Rat theorems (spread_inside, spread_coord_inside, ub_centre_inside, ub_every_cell_inside) remain as the exact-arithmetic "
     "reading of the mechanism; the older approx stream still checks |float - rat| <= 2^-18(|lo|+|hi|+1) (bins of <= 29 cells) and "
-    "containment of the float result in the closed bin on its own (small-demand) generator, where no excursion occurs",
+    "containment of the float result in the closed bin on its own (small-demand) generator",
     "no exposed/returned coordinate is non-finite or overflowed: finiteness of the conjugate-gradient iterates and of the "
     "float->int conversion is NOT proved; monitored by the oracle at every callback and after return on every generated "
     "circuit (sentinel INT_MIN/INT_MAX and |v| <= 2^30)",
@@ -87,9 +83,9 @@ ASSUMPTIONS = [
     "of zero width or zero height (at least one movable cell of positive area remains); coordinates within a few hundred units",
     "C++ int arithmetic modelled as unbounded Int (bin limits, margins)",
 ]
-LEVEL_TEXT = ("Lean 4 theorems over an executable binary32-exact model of spreadCells / spreadCoordX/Y (enclosure of every coordinate "
-              "given the final running share, kernel-evaluated witnesses that a float coordinate leaves its bin — by more than 1/2 for "
-              "adversarial demands —, absorption of sub-1/2 excursions by the export rounding; exact float-for-float differential stream) "
+LEVEL_TEXT = ("Lean 4 theorems over an executable binary32-exact model of spreadCells / spreadCoordX/Y (every coordinate in the closed bin "
+              "for all inputs, lifted to every cell and to the exposed centre; kernel-evaluated witnesses that the pre-fix function left "
+              "its bin by more than 1/2; exact float-for-float differential stream + containment oracle) "
               "and over an executable Rat model of spreadCells / spreadCoordX/Y / the density grid built from the clipped "
               "rows / blendPlacement / exportPlacement (containment of every positive-demand cell strictly inside its bin, bins inside "
               "the rows' bounding box, returned placement = rounded blend, and the observable three-roundings bound); model tied to "
@@ -101,8 +97,8 @@ LEVEL_TEXT = ("Lean 4 theorems over an executable binary32-exact model of spread
               "callback bounds, exit at the first iteration without wirelength, the recurrences and their closed forms, soundness of "
               "the KF-C06-1 numeric box, legacy witness on the pre-fix stop test); tied to the code per end-to-end case by the "
               "callback sequence (hook-free) and, with hook H5, by a bit-for-bit replay of the logged per-iteration floats")
-LEVEL_NOTE = ("Partial w.r.t. single precision: the spreading step has a binary32 model with a conditional enclosure (share bound not "
-              "proved), everything else is over Rat; the loop theorems are conditional on the oracle trace (they "
+LEVEL_NOTE = ("Partial w.r.t. single precision: the spreading step is proved in binary32 (finite values), everything else is over Rat; "
+              "the loop theorems are conditional on the oracle trace (they "
               "do not bound the float solves). Trusted: Lean kernel, the hand-written model's tie to the code "
               "(differential, bounded by the generator), the float error bound derivation in harness/h_C06.cpp.")
 TECHNIQUE = "Lean 4 proof over a Rat model + model/implementation correspondence stream + end-to-end direct oracle"
